@@ -25,7 +25,7 @@ import (
 
 var c02Space = mkSpace("sso", []fieldDim{
 	{"ACS", []string{"", "redirect-only", "post-only", "query-url", "special-url", "redirect-default+post", "three", "artifact-default+post", "none"}},
-	{"ACSURL", []string{"", "registered", "foreign", "prefix"}},
+	{"ACSURL", []string{"", "registered", "foreign", "prefix", "reg-pct", "reg-pct-slash", "reg-userinfo", "reg-fragment", "reg-upper-host-port", "reg-empty-query", "reg-trailing-dot", "reg-padded", "reg-dot-segment"}},
 	{"ACSIdx", []string{"", "0", "1", "99"}},
 	{"ProtoB", []string{"", "post", "redirect", "artifact", "junk"}},
 	{"Dest", []string{"", "absent", "host", "slo-endpoint"}},
